@@ -63,7 +63,7 @@ func (u *unknownAnalyzer) isSkipCall(inf *types.Info, call *ast.CallExpr, reader
 	}
 	// reader parameter unnamed/unknown: accept any value of the codec's Reader type
 	if v, ok := obj.(*types.Var); ok {
-		if n, ok := v.Type().(*types.Named); ok && n.Obj().Pkg() != nil && n.Obj().Pkg().Path() == u.codec && n.Obj().Name() == "Reader" {
+		if n, ok := v.Type().(*types.Named); ok && n.Obj().Pkg() != nil && n.Obj().Pkg().Path() == u.codec && core.NameOf(n.Obj()) == "Reader" {
 			return true
 		}
 	}
